@@ -57,9 +57,11 @@ def _worker(args):
     try:
         from . import lift
         lift.install()
-        mod = importlib.import_module('vf.props.' + prop.lower())
+        from . import common as _common
+        mod, kw_ = _common.resolve(prop, kwargs)
         with lift.trace_functions():
-            res = mod.run_case(case_id, tier=tier, seed=seed, **kwargs)
+            res = mod.run_case(case_id, tier=tier, seed=seed, **kw_)
+        res['prop'] = prop
         res['wall_s'] = time.time() - t0
         res['kwargs'] = kwargs
         signal.alarm(0)
@@ -165,7 +167,9 @@ def run_property(prop, tier, seed, jobs=None, only=None):
         for i in r.get('_replay_idx', []):
             c = r['candidates'][i]
             a = ans.get(('replay', r['case'], i))
-            confirmed, text = mod.judge(r['case'], r['kwargs'], c, a) if a else (None, 'no answer from the pristine interpreter')
+            from . import common as _common
+            jmod, jkw = _common.resolve(prop, r['kwargs'])
+            confirmed, text = jmod.judge(r['case'], jkw, c, a) if a else (None, 'no answer from the pristine interpreter')
             kf = known.by_id(findings, c['known']) if c.get('known') else None
             if confirmed is True:
                 if kf is not None and kf.get('status') == 'open':
